@@ -367,9 +367,70 @@ Fixpoint c16_from (cs : syscase) (reqs : list (id * (id * id))) (ended : list id
       end
   | _, _ => 0
   end.
+(* C16 clauses 7 and 8: the request's lifetime and the retryable answers.
+   7: no tokens (poll or push delivery) once the lifetime counted from /bc-authorize has elapsed, whatever the
+      embedder's validation answers.
+   8: a request that only ever got retryable answers (authorization_pending, slow_down) stays usable: an
+      approving poll of the initiating poll/ping client, authenticated, with a granting HandleGrant, no
+      narrowing and no binding involved, before the lifetime has elapsed, yields tokens.  `touched`: requests on
+      which anything else happened (any other answer to a poll, any notification) - not judged. *)
+Definition bind_is_none (b : bind_in) : bool := andb (match b_dpop b with None => true | Some _ => false end) (is_nil (b_cert b)).
+Fixpoint c16life_from (cs : syscase) (cfg : config) (born : list (id * (id * Z))) (touched : list id)
+                      (k : nat) (now : Z) (ops : list op) (xs : list obs) : N :=
+  match ops, xs with
+  | o :: ops', x :: xs' =>
+      let now' := match o with OpTick d => (now + d)%Z | _ => now end in
+      let expired (a : id) : bool :=
+        match lookup a born with Some (_, t0) => Z.leb (t0 + cf_ciba_lifetime cfg + 3) now | None => false end in
+      let bad : N :=
+        match o, x with
+        | OpToken GCiba r, Out (OTokens _) => if expired (t_auth_req r) then 7 else 0
+        | OpNotifyOk a _, Notified _ ns => if andb (expired a) (existsb (fun nf => negb (is_nil (nf_at nf))) ns) then 7 else 0
+        | OpToken GCiba r, Out (OErr _) =>
+            match lookup (t_auth_req r) born with
+            | Some (cl, t0) =>
+                match client_of cs cl with
+                | Some c =>
+                    if andb (ideq cl (cr_id (t_cred r))) (andb (cr_ok (t_cred r))
+                       (andb (match t_ba r with BaApprove => true | _ => false end)
+                       (andb (match t_hg r with HgOk => true | _ => false end)
+                       (andb (negb (memN (t_auth_req r) touched))
+                       (andb (Z.ltb (now + 3) (t0 + cf_ciba_lifetime cfg))
+                       (andb (has_grant GCiba (c_grants c))
+                       (andb (match c_ciba_mode c with CibaPush => false | _ => true end)
+                       (andb (bind_is_none (t_bind r))
+                       (andb (match validate_binding cfg c (t_bind r) no_opts with None => true | Some _ => false end)
+                       (andb (is_empty (t_scope r)) (no_res (t_resources r))))))))))))
+                    then 8 else 0
+                | None => 0 end
+            | None => 0 end
+        | _, _ => 0
+        end in
+      match bad with
+      | 0 =>
+          c16life_from cs cfg
+            (match o, x with OpBcAuthorize r, Out (OCiba a _) => (a, (cr_id (br_cred r), now)) :: born | _, _ => born end)
+            (match o, x with
+             | OpToken GCiba r, Out (OErr EAuthPending) | OpToken GCiba r, Out (OErr ESlowDown) => touched
+             | OpToken GCiba r, _ => t_auth_req r :: touched
+             | OpNotifyOk a _, _ | OpNotifyFail a, _ =>
+                 (* a notification changes the stored request only for a push client *)
+                 match lookup a born with
+                 | Some (cl, _) => match client_of cs cl with
+                                   | Some c => match c_ciba_mode c with CibaPush => a :: touched | _ => touched end
+                                   | None => a :: touched end
+                 | None => touched end
+             | _, _ => touched end)
+            (S k) now' ops' xs'
+      | c => viol c k
+      end
+  | _, _ => 0
+  end.
 Definition mon_C16 (c : syscase) : N :=
   match with_cfg (fun cfg ops xs => once_from cons_ciba cons_ciba cfg [] 0 ops xs) c with
-  | 0 => c16_from c [] [] 0 (sc_ops c) (sc_obs c)
+  | 0 => match c16_from c [] [] 0 (sc_ops c) (sc_obs c) with
+         | 0 => with_cfg (fun cfg ops xs => c16life_from c cfg [] [] 0 0%Z ops xs) c
+         | k => k end
   | k => 1000 + k
   end.
 
@@ -539,8 +600,57 @@ Fixpoint c10exp_from (cfg : config) (lin : list (id * N)) (exps born : list (N *
       end
   | _, _ => 0
   end.
+(* C10 clause 8: "an expired refresh token is refused and its grant is removed": once the owning client's
+   refresh was refused past the absolute expiry, no access token issued under that grant is reported live
+   (its own lifetime may well reach beyond the grant's). *)
+Fixpoint c10gone_from (cfg : config) (ats lin : list (id * N)) (born : list (N * (id * Z))) (gone : list N)
+                      (k : nat) (now : Z) (ops : list op) (xs : list obs) : N :=
+  match ops, xs with
+  | o :: ops', x :: xs' =>
+      let key := N.of_nat (S k) in
+      let now' := match o with OpTick d => (now + d)%Z | _ => now end in
+      let live_at (p : ptok) : bool :=
+        match p with PExact h => match lookup h ats with Some gk => memN gk gone | None => false end | _ => false end in
+      let bad : bool :=
+        match o, x with
+        | OpIntrospect r, Out (OIntro i) => andb (in_active i) (andb (negb (in_refresh i)) (live_at (q_tok r)))
+        | OpTokenInfo p, Out (OIntro i) => andb (in_active i) (andb (negb (in_refresh i)) (live_at p))
+        | OpTokenInfoReq r, Out (OIntro i) => andb (in_active i) (andb (negb (in_refresh i)) (live_at (u_tok r)))
+        | OpUserInfo r, Out (OUserInfo _) => live_at (u_tok r)
+        | _, _ => false
+        end in
+      if bad then viol 8 k else
+      match o, x with
+      | OpToken GRefreshToken r, Out (OTokens t) =>
+          match lookup (t_refresh r) lin with
+          | Some gk => c10gone_from cfg ((tr_at t, gk) :: ats) (if is_nil (tr_rt t) then lin else (tr_rt t, gk) :: lin) born gone (S k) now' ops' xs'
+          | None => c10gone_from cfg ats lin born gone (S k) now' ops' xs'
+          end
+      | OpToken GRefreshToken r, Out (OErr EUnauthorizedClient) =>
+          match lookup (t_refresh r) lin with
+          | Some gk =>
+              match lookupN gk born with
+              | Some (owner, b) =>
+                  if andb (ideq owner (cr_id (t_cred r))) (andb (cr_ok (t_cred r)) (Z.leb (b + cf_refresh_lifetime cfg + 3) now))
+                  then c10gone_from cfg ats lin born (gk :: gone) (S k) now' ops' xs'
+                  else c10gone_from cfg ats lin born gone (S k) now' ops' xs'
+              | None => c10gone_from cfg ats lin born gone (S k) now' ops' xs'
+              end
+          | None => c10gone_from cfg ats lin born gone (S k) now' ops' xs'
+          end
+      | OpToken _ r, Out (OTokens t) =>
+          if is_nil (tr_rt t) then c10gone_from cfg ats lin born gone (S k) now' ops' xs'
+          else c10gone_from cfg ((tr_at t, key) :: ats) ((tr_rt t, key) :: lin) ((key, (cr_id (t_cred r), now)) :: born) gone (S k) now' ops' xs'
+      | _, _ => c10gone_from cfg ats lin born gone (S k) now' ops' xs'
+      end
+  | _, _ => 0
+  end.
 Definition mon_C10x (c : syscase) : N :=
-  match mon_C10 c with 0 => with_cfg (fun cfg ops xs => c10exp_from cfg [] [] [] 0 0%Z ops xs) c | k => k end.
+  match mon_C10 c with
+  | 0 => match with_cfg (fun cfg ops xs => c10exp_from cfg [] [] [] 0 0%Z ops xs) c with
+         | 0 => with_cfg (fun cfg ops xs => c10gone_from cfg [] [] [] [] 0 0%Z ops xs) c
+         | k => k end
+  | k => k end.
 
 (* C17 clause 4: a callback is served (next page, or a navigation back to the client) only before the
    session timeout, counted from the /authorize request that started the interaction - intermediate
